@@ -65,14 +65,14 @@ Check (C07_history_fields : forall c h i,
 Check (C07_vars_free : forall t x, In x (vars t) <-> free x (emb t)).
 Check (C07_cfg_fixed_faithful : faithful cfg_fixed).
 Check (C07_cfg_partA_faithful : faithful cfg_partA).
-Check (C07_literal_deps_agree_stat : forall (l : literal) k d t x,
-  In (k, d) l -> fdyn d = false -> fbody d = Some t ->
+Check (C07_literal_deps_agree_stat : forall (l : literal) k d x,
+  In (k, d) l -> fdyn d = false ->
   exists ds, In (k, ds) (deps_stat false (emb_stat l) []) /\
-             (In x ds <-> In x (filter (fun y => Lang.mem y (lit_scope l)) (c_an cfg_partA t)))).
-Check (C07_literal_deps_agree_dyn : forall (l : literal) k d t x,
-  In (k, d) l -> fdyn d = true -> fbody d = Some t ->
+             (In x ds <-> exists ds', field_deps cfg_partA (lit_scope l) d = Some ds' /\ In x ds')).
+Check (C07_literal_deps_agree_dyn : forall (l : literal) k d x,
+  In (k, d) l -> fdyn d = true ->
   exists ds, In ds (deps_dyn false (emb_stat l) [] (emb_dyn l)) /\
-             (In x ds <-> In x (filter (fun y => Lang.mem y (lit_scope l)) (c_an cfg_partA t)))).
+             (In x ds <-> exists ds', field_deps cfg_partA (lit_scope l) d = Some ds' /\ In x ds')).
 Check (C07_static_history_same : forall b c h,
   hist_static h -> forall sd, irun_from (set_wrap b c) sd h = irun_from c sd h).
 Check (C07_history_fields_current : forall h i,
